@@ -127,6 +127,7 @@ def parseOp (toks : List String) : Option Op :=
     if s = "-" then some (.hsWebsocket (protoOf eio) (b64 = "1")) else some (.wsCandidate (sidOf s) (protoOf eio) (b64 = "1"))
   | ["frame", c, k, hex] => some (.frame c.toNat! (msgOf k hex))
   | ["drop", c] => some (.drop c.toNat!)
+  | ["drop", c, code] => some (.closeFrame c.toNat! code.toNat!)
   | "send" :: s :: k :: hex :: cmp :: cb :: rest =>
     let pre := match rest with
       | [p] => if p = "-" then none else some (msgOf (p.take 1).toString (p.drop 1).toString)
